@@ -279,7 +279,11 @@ func (m Model) removeChildren(p string) {
 }
 
 func (m Model) ensureParents(p string) {
-	for d := path.Dir(p); d != "." && d != "/" && d != ""; d = path.Dir(d) {
+	// top-down, so that replacing a non-directory ancestor cannot remove a deeper
+	// ancestor that was just created
+	parts := strings.Split(p, "/")
+	for i := 1; i < len(parts); i++ {
+		d := strings.Join(parts[:i], "/")
 		if n, ok := m[d]; !ok || n.Kind != "dir" {
 			if ok {
 				m.removeSubtree(d)
@@ -321,8 +325,6 @@ func (m Model) Apply(entries []Entry) Model {
 		}
 		base := path.Base(name)
 		if strings.HasPrefix(base, ".wh.") {
-			// a whiteout still implies that its parent directories exist
-			out.ensureParents(name)
 			continue
 		}
 		out.ensureParents(name)
